@@ -483,6 +483,16 @@ func (vc *VC) typeFacts(term string, t types.Type, alloc string) []string {
 			out = append(out, "(<= (iref "+term+") "+alloc+")")
 		}
 		_ = u
+	case *types.Struct:
+		// a struct value: facts about its fields (one level of nesting is enough for message structs)
+		if si := vc.eng.types.structInfoOf(t); si != nil && !strings.Contains(term, "(T_") {
+			for i, f := range si.fields {
+				if _, nested := types.Unalias(f.typ).Underlying().(*types.Struct); nested && !isMathInt(f.typ) {
+					continue
+				}
+				out = append(out, vc.typeFacts("("+accessor(si, i)+" "+term+")", f.typ, alloc)...)
+			}
+		}
 	}
 	return out
 }
